@@ -253,6 +253,26 @@ __attribute__((noinline)) unsigned vf_e10_config_size( int cfg )
     return r;
 }
 
+/* the application's view of the subscription of characteristic k: bit 0 notifications, bit 1 indications */
+__attribute__((noinline)) unsigned vf_e10_configured( int cfg, int k )
+{
+    unsigned r = 0;
+    E10_FOR_CFG( cfg, {
+        auto& s = static_cast< srv_t& >( ll );
+        const auto& c = ll.connection_data_.client_configurations();
+        switch ( k )
+        {
+            case 0: r = ( s.template configured_for_notifications< e10_u0 >( c ) ? 1 : 0 ); break;
+            case 1: r = ( s.template configured_for_indications< e10_u1 >( c ) ? 2 : 0 ); break;
+            case 2: r = ( s.template configured_for_notifications< e10_u2 >( c ) ? 1 : 0 ) | ( s.template configured_for_indications< e10_u2 >( c ) ? 2 : 0 ); break;
+            case 3: r = ( s.template configured_for_notifications< e10_u3 >( c ) ? 1 : 0 ); break;
+            case 4: r = ( s.template configured_for_notifications< e10_u4 >( c ) ? 1 : 0 ) | ( s.template configured_for_indications< e10_u4 >( c ) ? 2 : 0 ); break;
+            default: r = ( s.template configured_for_indications< e10_u5 >( c ) ? 2 : 0 ); break;
+        }
+    } );
+    return r;
+}
+
 __attribute__((noinline)) void vf_e10_set_client_mtu( int cfg, unsigned mtu )
 {
     E10_FOR_CFG( cfg, ll.connection_data_.client_mtu( mtu ) );
